@@ -28,9 +28,8 @@ trusted_base = [
   "hash: the model says only that hash depends on the SET of (power, coefficient) items; that numerically equal "
   "int/float/Fraction/ExactQ values hash alike is CPython's numeric-hash invariant, not modelled",
 ]
-ASSUMPTIONS = ["coefficient arithmetic stays inside the exact rationals: the model has one numeric type (Qc); the "
-               "implementation's change of a unit coefficient to the int 1 in __pow__ is invisible to it until a true "
-               "division follows (finding C07-pow-unit-coef-int, cases screened until it is listed in known_findings.json)",
+ASSUMPTIONS = ["coefficient arithmetic stays inside the exact rationals: the model has one numeric type (Qc); Python ints "
+               "(int / int is float division) are kept away from integrate and / by construction of the inputs",
                "OrderedDict keeps insertion order, re-assignment keeps the position (CPython)",
                "Stream-valued coefficients and non-integer powers are outside the property's quantifier and not modelled"]
 
@@ -134,6 +133,20 @@ def rand_expr(rng, depth, ty="q", ops=ALL_OPS, lo=-4, hi=6, negpow=True, maxpow=
   raise ValueError(op)
 
 
+def no_int_under_integrate(e, under=False):
+  """Domain rule decided from the INPUT: p ** 0 is Poly(1) with a Python int coefficient, and integrate() divides by
+  the int k + 1 (int / int is float division in Python 3, and the float then contaminates Fraction arithmetic).
+  Below an integrate node every exponent 0 is replaced by 1, so no int-typed coefficient reaches that division."""
+  if not isinstance(e, list) or not e or not isinstance(e[0], str):
+    return e
+  if e[0] == "pow":
+    return ["pow", no_int_under_integrate(e[1], under), 1 if (under and e[2] == 0) else e[2]]
+  if e[0] in ("pairs", "raw", "list", "const", "none", "x"):
+    return e
+  u = under or e[0] == "int"
+  return [e[0]] + [no_int_under_integrate(a, u) if isinstance(a, list) and a and isinstance(a[0], str) else a for a in e[1:]]
+
+
 def has_op(e):
   return e[0] not in ("pairs", "raw", "list", "const", "none", "x")
 
@@ -156,7 +169,9 @@ def build(e, ty):
   if t == "none":
     return Poly()
   if t == "x":
-    return audiolazy.x
+    # a fresh x with a coefficient of the case's numeric type (the library's own x = Poly({1: 1}) carries a Python
+    # int, whose true division is float division: Python semantics, outside the exact domain)
+    return Poly({1: num([1, 1], ty)})
   if t == "neg": return -build(e[1], ty)
   if t == "pos": return +build(e[1], ty)
   if t == "copy": return build(e[1], ty).copy()
@@ -380,7 +395,7 @@ def gen_expr(tier, rng):
   ]
   for e in edge:
     yield {"e": e, "ty": "q", "tags": ["edge", e[0]]}
-  n = 900 if tier == "quick" else 9000
+  n = 700 if tier == "quick" else 9000
   for i in range(n):
     depth = rng.choice([1, 1, 2, 2, 3])
     r = rng.random()
@@ -394,7 +409,7 @@ def gen_expr(tier, rng):
       ty, ops = "float", SAFE_OPS
     if ty == "float":   # keep float arithmetic exact: shallow trees, small exponents
       depth = min(depth, 2)
-    e = rand_expr(rng, depth, ty, ops, negpow=(ty in ("q", "frac")), maxpow=(3 if ty == "float" else 5))
+    e = no_int_under_integrate(rand_expr(rng, depth, ty, ops, negpow=(ty in ("q", "frac")), maxpow=(3 if ty == "float" else 5)))
     yield {"e": e, "ty": ty, "tags": ["random", "depth=%d" % depth, "ty=" + ty, "top=" + e[0]]}
 
 
@@ -438,7 +453,7 @@ def laws(rng, a, b, c3, k, n):
 
 
 def gen_pair(tier, rng):
-  rounds = 28 if tier == "quick" else 280
+  rounds = 24 if tier == "quick" else 280
   for i in range(rounds):
     r = rng.random()
     tyl = "q" if r < 0.6 else rng.choice(["int", "float", "frac"])
@@ -464,7 +479,7 @@ def gen_pair(tier, rng):
       yield {"lhs": ["pow", ["pairs", [[2, k]]], -n], "rhs": ["divp", ["const", [1, 1]], ["pow", ["pairs", [[2, k]]], n]],
              "must": True, "tyl": tyl, "tyr": tyr, "tags": ["law", "mono_negpow"]}
   # equal polynomials along different paths / orders / coefficient types; near misses
-  n = 500 if tier == "quick" else 5000
+  n = 350 if tier == "quick" else 5000
   for i in range(n):
     tyl = rng.choice(["q", "int", "float", "frac"])
     tyr = rng.choice(["q", "int", "float", "frac"])
@@ -506,7 +521,7 @@ def nontrivial_pair(c, o):
 
 
 def gen_eval(tier, rng):
-  n = 700 if tier == "quick" else 7000
+  n = 550 if tier == "quick" else 7000
   edge = [(["pairs", [[-1, [1, 1]]]], ["x"], [0, 1]), (["pairs", [[7, [1, 1]], [6, [1, 1]], [0, [4, 1]]]], ["x"], [2, 1]),
           (["none"], ["none"], [3, 1]), (["pairs", [[-1, [1, 1]]]], ["add", ["x"], ["const", [1, 1]]], [2, 1]),
           (["pairs", [[2, [1, 1]], [1, [2, 1]], [0, [1, 1]]]], ["pairs", [[-1, [1, 2]], [1, [1, 1]]]], [1, 2]),
@@ -549,7 +564,7 @@ def gen_lagr(tier, rng):
       for shift in range(len(ys) if npts < 3 else 1):
         pts = [[fr(xj), fr(ys[(j + shift + (1 if xj == 1 else 0)) % len(ys)])] for j, xj in enumerate(xsel)]
         yield {"pts": pts, "v": fr(Fraction(5, 3)), "tags": ["exh", "n=%d" % npts, "distinct" if len(set(xsel)) == npts else "repeated"]}
-  n = 250 if tier == "quick" else 2500
+  n = 200 if tier == "quick" else 2500
   for i in range(n):
     npts = rng.randrange(1, 6)
     if rng.random() < 0.85:
@@ -568,61 +583,138 @@ def nontrivial_lagr(c, o):
   return len(xs) >= 2 and len(set(xs)) == len(xs)
 
 
-# FINDING C07-pow-unit-coef-int: Poly.__pow__ on a one-term polynomial replaces a coefficient equal to 1 by the
-# int 1 ("1 if v == 1 else v ** other"), so Fraction(1) / ExactQ(1) silently becomes an int and a later true
-# division by an int (integrate divides by k + 1) is float division: (Poly({1: Fraction(1)}) ** 48).integrate().diff() != the input.
-# Protocol: while the id is absent from known_findings.json the generators drop the (rare) cases on which exact
-# operands produced a float coefficient, so that the unchanged tree checks OK; once the orchestrator lists the id
-# (status "known" or "fixed") nothing is dropped any more and the explicit witnesses below are added.
-FINDING_POW_UNIT = "C07-pow-unit-coef-int"
-
-
-def finding_registered(fid):
-  import json, os
-  if os.environ.get("C07_WITNESS") == "1":   # reproduce the finding by hand: C07_WITNESS=1 ./check C07 --no-proofs
-    return True
-  path = os.path.join(os.path.dirname(os.path.dirname(os.path.abspath(__file__))), "known_findings.json")
-  try:
-    return any(e.get("id") == fid for e in json.load(open(path)).get("findings", []))
-  except Exception:
-    return False
-
-
+# Finding C07-pow-unit-coef-int (fixed by 6609ca4): its witness lives in corpus/C07/ and must pass.
+# Domain rule, decided from the INPUT types only: in the exact palettes ("q", "frac") every leaf coefficient,
+# scalar and x itself is an ExactQ / Fraction, so no Python int ever reaches a true division except the constant 1
+# of p ** 0 (power 0, divided by 0 + 1 = 1 in integrate: exact).  The "int" and "float" palettes never divide.
 def known(c, o):
-  if isinstance(o, dict) and o.get("inexact"):
-    return FINDING_POW_UNIT
   return None
 
 
-X48 = ["pow", ["pairs", [[1, [1, 1]]]], 48]
-WITNESS_EXPR = [{"e": ["int", ["pow", ["pairs", [[1, [1, 1]]]], 5]], "ty": "frac", "tags": ["witness", FINDING_POW_UNIT]},
-                {"e": ["int", ["pow", ["pairs", [[-3, [1, 1]]]], 2]], "ty": "q", "tags": ["witness", FINDING_POW_UNIT]}]
-WITNESS_PAIR = [{"lhs": ["diff", ["int", X48], 1], "rhs": X48, "must": True, "tyl": "frac", "tyr": "frac",
-                 "tags": ["witness", FINDING_POW_UNIT]}]
+# ----------------------------------------------------------------------------- lagh: histories of lagrange calls
+# class (a): state surviving between calls.  2-4 interpolators are built in ONE process on the same abscissa VALUES
+# given in different numeric types (float / Fraction / ExactQ), orders and with different ordinates; every call
+# must equal the per-call model.  Plain Fractions are used as the exact type here on purpose: ExactQ absorbs a
+# float operand exactly and would hide a float that leaked in from an earlier call.
+P2_GRIDS = [[0, 1, 2], [0, 2, 4], [-1, 0, 1], [0, Fraction(1, 2), 1], [1, 2, 3], [0, 1], [0, 2], [-1, 1], [0, 4],
+            [1, 3], [2, 4, 6], [Fraction(-1, 2), 0, Fraction(1, 2)], [3], [0]]
+ANY_GRIDS = [[0, 1, 3], [0, 1, 2, 3], [-2, 1, 5], [Fraction(1, 3), 1, 2], [0, 3], [1, 2, 4, 7], [0, 1, 2, 3, 4]]
+YS_EXACT = [Fraction(1, 3), Fraction(-2, 7), Fraction(5, 11), Fraction(2), Fraction(-1, 6), Fraction(0), Fraction(7, 9)]
+YS_DYADIC = [Fraction(1, 4), Fraction(-3, 2), Fraction(17, 8), Fraction(2), Fraction(-1), Fraction(0)]
 
 
-def screened(run, gen, witnesses=()):
-  def g(tier, rng):
-    reg = finding_registered(FINDING_POW_UNIT)
-    for c in gen(tier, rng):
-      if not reg:
-        try:
-          o = run(c)
-        except Exception:
-          o = {}
-        if isinstance(o, dict) and o.get("inexact"):
-          continue
-      yield c
-    if reg:
-      for w in witnesses:
-        yield dict(w)
-  return g
+def typed(frl, ty):
+  f = Fraction(frl[0], frl[1])
+  if ty == "float":
+    return float(f)
+  if ty == "frac":
+    return f
+  if ty == "int" and f.denominator == 1:
+    return int(f)
+  return ExactQ(f)
 
+
+def lagr_obs(pts, v):
+  import audiolazy
+  o = {"fv": safe(lambda: qv(audiolazy.lagrange.func(pts)(v))),
+       "poly": safe(lambda: terms_of(audiolazy.lagrange.poly(pts))),
+       "pv": safe(lambda: qv(audiolazy.lagrange.poly(pts)(v))), "fx": [], "px": []}
+  if pts:
+    f = audiolazy.lagrange.func(pts)
+    pl = audiolazy.lagrange.poly(pts)
+    o["fx"] = [qv(f(xj)) for xj, _ in pts]
+    o["px"] = [qv(pl(xj)) for xj, _ in pts]
+  return o
+
+
+def run_lagh(c):
+  outs = []
+  for call in c["calls"]:
+    pts = [(typed(a, call["xty"]), typed(b, call["yty"])) for a, b in call["pts"]]
+    v = typed(call["v"], call["vty"])
+    if call.get("iter"):          # argument kind: a one-shot iterator of pairs instead of a list
+      o = lagr_obs_iter(pts, v)
+    else:
+      o = lagr_obs(pts, v)
+    outs.append(o if call["observe"] else None)
+  return {"calls": outs}
+
+
+def lagr_obs_iter(pts, v):
+  import audiolazy
+  o = {"fv": safe(lambda: qv(audiolazy.lagrange.func(iter(pts))(v))),
+       "poly": safe(lambda: terms_of(audiolazy.lagrange.poly(tuple(pts)))),
+       "pv": safe(lambda: qv(audiolazy.lagrange.poly(p for p in pts)(v))), "fx": [], "px": []}
+  if pts:
+    f = audiolazy.lagrange.func(iter(pts))
+    pl = audiolazy.lagrange.poly(iter(pts))
+    o["fx"] = [qv(f(xj)) for xj, _ in pts]
+    o["px"] = [qv(pl(xj)) for xj, _ in pts]
+  return o
+
+
+def lit_lagh(c, o):
+  calls = o.get("calls") or [None] * len(c["calls"])
+  lits = []
+  for call, oc in zip(c["calls"], calls):
+    if not call["observe"]:
+      continue
+    lits.append(lit_lagr({"pts": call["pts"], "v": call["v"]}, oc or {}))
+  return "(LH %s)" % L.lst(lits)
+
+
+def gen_lagh(tier, rng):
+  n = 220 if tier == "quick" else 2600
+  for i in range(n):
+    floatable = rng.random() < 0.7
+    grid = [Fraction(g) for g in rng.choice(P2_GRIDS if floatable else ANY_GRIDS)]
+    ncalls = rng.randrange(2, 5)
+    calls = []
+    for j in range(ncalls):
+      g = list(grid)
+      if rng.random() < 0.25:
+        rng.shuffle(g)
+      r = rng.random()
+      xty = "float" if r < 0.4 else "frac" if r < 0.8 else "q"
+      if j == 0 and i % 2 == 0:
+        xty = "float"               # a float interpolator first, exact ones on the same abscissae afterwards
+      elif j > 0 and i % 2 == 0 and rng.random() < 0.7:
+        xty = "frac"
+      observe = True
+      if xty == "float":
+        yty = rng.choice(["float", "float", "frac"])
+        ys = [rng.choice(YS_DYADIC) for _ in g]
+        if not floatable:
+          observe = False           # float arithmetic is not exact on this grid: run for its side effects only
+        vty = "float" if rng.random() < 0.5 else "frac"
+        v = rng.choice([Fraction(1, 2), Fraction(3), Fraction(-5, 4), Fraction(0), Fraction(7, 8)])
+      else:
+        yty = rng.choice(["frac", "frac", "q"])
+        ys = [rng.choice(YS_EXACT) for _ in g]
+        vty = rng.choice(["frac", "q"])
+        v = rng.choice([Fraction(7, 5), Fraction(0), Fraction(-2, 3), Fraction(3), Fraction(1, 2)])
+      calls.append({"pts": [[fr(a), fr(b)] for a, b in zip(g, ys)], "xty": xty, "yty": yty, "v": fr(v), "vty": vty,
+                    "observe": observe, "iter": rng.random() < 0.15})
+    if not any(cl["observe"] for cl in calls):
+      calls[-1]["observe"] = True; calls[-1]["xty"] = "frac"; calls[-1]["yty"] = "frac"; calls[-1]["vty"] = "frac"
+      calls[-1]["pts"] = [[p[0], fr(rng.choice(YS_EXACT))] for p in calls[-1]["pts"]]
+    kinds = "".join(cl["xty"][0] for cl in calls)
+    yield {"calls": calls, "tags": ["hist", "types=" + kinds, "floatable" if floatable else "anygrid"]}
+
+
+def nontrivial_lagh(c, o):
+  tys = set(cl["xty"] for cl in c["calls"])
+  return len(tys) >= 2 and len(c["calls"][0]["pts"]) >= 2
 
 IMPORTS = "From AL Require Import C07.Model C07.Spec C07.Check."
-FAMILIES = {
-  "expr": Family("expr", IMPORTS, "ecase", "corr_expr", "holds_expr", screened(run_expr, gen_expr, WITNESS_EXPR), run_expr, lit_expr, nontrivial_expr, known),
-  "pair": Family("pair", IMPORTS, "pcase", "corr_pair", "holds_pair", screened(run_pair, gen_pair, WITNESS_PAIR), run_pair, lit_pair, nontrivial_pair, known),
-  "eval": Family("eval", IMPORTS, "vcase", "corr_eval", "holds_eval", screened(run_eval, gen_eval), run_eval, lit_eval, nontrivial_eval, known),
+FAMILIES_BASE = {
+  "expr": Family("expr", IMPORTS, "ecase", "corr_expr", "holds_expr", gen_expr, run_expr, lit_expr, nontrivial_expr, known),
+  "pair": Family("pair", IMPORTS, "pcase", "corr_pair", "holds_pair", gen_pair, run_pair, lit_pair, nontrivial_pair, known),
+  "eval": Family("eval", IMPORTS, "vcase", "corr_eval", "holds_eval", gen_eval, run_eval, lit_eval, nontrivial_eval, known),
   "lagr": Family("lagr", IMPORTS, "lcase", "corr_lagr", "holds_lagr", gen_lagr, run_lagr, lit_lagr, nontrivial_lagr, known),
 }
+FAMILIES = dict(FAMILIES_BASE)
+FAMILIES["lagh"] = Family("lagh", IMPORTS, "lhcase", "corr_lagh", "holds_lagh", gen_lagh, run_lagh, lit_lagh, nontrivial_lagh, known)
+import C07_hist as _HH
+FAMILIES["hist"] = Family("hist", IMPORTS, "hcase", "corr_hist", "holds_hist", _HH.gen_hist, _HH.run_hist, _HH.lit_hist,
+                          _HH.nontrivial_hist, known)
